@@ -71,7 +71,7 @@ class Rule_AM04(BaseRule):
     # Only evaluate the outermost query.
     crawl_behaviour = SegmentSeekerCrawler(set(_START_TYPES), allow_recurse=False)
 
-    def _handle_alias(self, selectable, alias_info, query) -> None:
+    def _handle_alias(self, selectable, alias_info, query, visited) -> None:
         select_info_target = next(
             query.crawl_sources(alias_info.from_expression_element, True)
         )
@@ -85,10 +85,19 @@ class Rule_AM04(BaseRule):
             raise RuleFailure(selectable.selectable)
         else:
             # Handle nested SELECT.
-            self._analyze_result_columns(select_info_target)
+            self._analyze_result_columns(select_info_target, visited)
 
-    def _analyze_result_columns(self, query: Query) -> None:
+    def _analyze_result_columns(
+        self, query: Query, visited: Optional[set[int]] = None
+    ) -> None:
         """Given info on a list of SELECTs, determine whether to warn."""
+        # NOTE: Keep track of the queries already visited. A CTE can refer
+        # to itself (or to a later CTE which refers back), and following
+        # those references again would never terminate.
+        visited = set() if visited is None else visited
+        if id(query) in visited:
+            return None
+        visited.add(id(query))
         # Recursively walk from the given query (select_info_list) to any
         # wildcard columns in the select targets. If every wildcard evdentually
         # resolves to a query without wildcards, all is well. Otherwise, warn.
@@ -108,13 +117,15 @@ class Rule_AM04(BaseRule):
                         if alias_info:
                             # Found the alias matching the wildcard. Recurse,
                             # analyzing the query associated with that alias.
-                            self._handle_alias(selectable, alias_info, query)
+                            self._handle_alias(
+                                selectable, alias_info, query, visited
+                            )
                         else:
                             # Not an alias. Is it a CTE?
                             cte = query.lookup_cte(wildcard_table)
                             if cte:
                                 # Wildcard refers to a CTE. Analyze it.
-                                self._analyze_result_columns(cte)
+                                self._analyze_result_columns(cte, visited)
                             else:
                                 # Not CTE, not table alias. Presumably an
                                 # external table. Warn.
@@ -128,7 +139,7 @@ class Rule_AM04(BaseRule):
                     # querying from a nested select in FROM.
                     for o in query.crawl_sources(selectable.selectable, True):
                         if isinstance(o, Query):
-                            self._analyze_result_columns(o)
+                            self._analyze_result_columns(o, visited)
                             return None
                     self.logger.debug(
                         f'Query target "{selectable.selectable.raw}" has no '
